@@ -82,7 +82,8 @@ struct Dg {
     char role = 'n';                 // n none, g controlling, d controlled
     unsigned long long prio = 0;
     int user = 0;                    // 0 none, 1 the right "<local>:<remote>" name, 2 something else
-    int mapped = 0;                  // > 0: XOR-MAPPED-ADDRESS of a response = synthetic address 10.0.0.<mapped> port 4000+<mapped>
+    int mapped = 0;                  // > 0: XOR-MAPPED-ADDRESS of a response = synthetic address 10.0.0.<mapped> port 4000+<mapped>;
+                                     // < 0: a fresh one is assigned when the scenario runs; 0: none (server-path ids) / the victim's own (peer path)
     std::string str() const
     {
         if (app) return "dg " + std::to_string(src) + " app " + (payload.isEmpty() ? std::string("-") : std::string(payload.toHex().constData()));
@@ -134,7 +135,7 @@ static QByteArray forge(const Dg &d, const Creds &c, const QList<QByteArray> &vi
         if (d.role == 'd') m.iceControlled = QByteArray::fromHex("1112131415161718");
     } else {
         if (d.mapped > 0) { m.xorMappedHost = QHostAddress(QStringLiteral("10.0.0.%1").arg(d.mapped)); m.xorMappedPort = quint16(4000 + d.mapped); }
-        else { m.xorMappedHost = vHost; m.xorMappedPort = vPort; }
+        else if (!(d.txid >= 500 && d.txid < 600)) { m.xorMappedHost = vHost; m.xorMappedPort = vPort; }   // ids 500…: a server answer WITHOUT mapped address
         if (d.cls == "err") { m.errorCode = 487; m.errorPhrase = QStringLiteral("Role Conflict"); }
     }
     if (d.user == 1) m.setUsername(c.localUser + QLatin1Char(':') + c.remoteUser);
@@ -873,9 +874,9 @@ static void part1(const Args &a, Rng &rng)
                     stat("interleaved_scenarios");
                 }
         }
-    // ---- STUN-server discovery: every sequence of length 2 (3) over the server-path alphabet, 1 and 2 servers configured.
-    // (A success response WITHOUT a mapped address, or with an address that is already a local candidate, is kept out: today's code
-    //  then keeps a deleted transaction registered — see stunDiscoveryDefect() — and anything that follows is undefined behaviour.)
+    // ---- STUN-server discovery: every sequence of length 2 (3) over the server-path alphabet, 1 and 2 servers configured —
+    // including the two inputs that left a deleted transaction registered before repo commit 314ddf9: a success response
+    // without mapped address, and one reporting an address that is already a local candidate.
     {
         std::vector<Dg> sv;
         auto S = [&](int src, const char *cls, const char *lay, unsigned long long tx, char method = 'b') { Dg d = mk(src, cls, lay, tx, false, 'n', 0, 0, method); d.mapped = -1; sv.push_back(d); };
@@ -883,6 +884,10 @@ static void part1(const Args &a, Rng &rng)
         S(5, "err", "fp", 500); S(8, "err", "-", 501); S(5, "req", "fp", 500); S(8, "ind", "-", 500);
         S(8, "rsp", "trunc", 500); S(8, "rsp", "fpbad", 500); S(8, "rsp", "sw", 501); S(5, "rsp", "fp", 500, 'o');
         S(8, "rsp", "fp", 4242); S(8, "req", "-", 500);
+        { Dg d = mk(5, "rsp", "fp", 500); d.mapped = 0; sv.push_back(d); }                       // no mapped address
+        { Dg d = mk(6, "rsp", "fp", 501); d.mapped = 0; sv.push_back(d); }
+        { Dg d = mk(5, "rsp", "fp", 500); d.mapped = 60; sv.push_back(d); }                      // both servers report the same address
+        { Dg d = mk(6, "rsp", "fp", 501); d.mapped = 60; sv.push_back(d); }
         const int depth = thorough ? 3 : 2;
         for (int nst = 1; nst <= 2; nst++)
             for (int tail = 0; tail < 2; tail++) {
@@ -962,7 +967,8 @@ static void part1(const Args &a, Rng &rng)
                 static const char *lays[] = { "-", "fp", "bad", "fpbad", "trunc" };
                 static const char *clss[] = { "rsp", "rsp", "rsp", "err", "req" };
                 static const int srcs[] = { 5, 6, 8, 9 };
-                Dg d = mk(srcs[rng.below(4)], clss[rng.below(5)], lays[rng.below(5)], 500 + rng.below(2)); d.mapped = -1;
+                Dg d = mk(srcs[rng.below(4)], clss[rng.below(5)], lays[rng.below(5)], 500 + rng.below(2));
+                { const unsigned mm = rng.below(6); d.mapped = mm == 0 ? 0 : mm == 1 ? 60 : -1; }   // none / a fixed (possibly repeated) address / a fresh one
                 s.add(d); continue;
             }
             if (r < 5) s.add("creds");
@@ -1199,8 +1205,9 @@ static void part2(const Args &a, Rng &rng)
     }
 }
 
+// (Fixed by repo commit 314ddf9; the probes stay as regression tests.)
 // Two STUN servers that report the SAME reflexive address (the normal case behind one NAT), or a success response without a mapped
-// address: QXmppIceComponent::transactionFinished returns early and leaves the transaction — which it has just scheduled for
+// address: QXmppIceComponent::transactionFinished returned early and left the transaction — which it has just scheduled for
 // deletion — registered in stunTransactions.  Consequences: (1) gathering never completes; (2) the next STUN message of any kind
 // makes handleDatagram call request() on the deleted object (heap-use-after-free).  (1) is checked in-process without touching
 // the dangling entry; (2) in a child process, because it is undefined behaviour (the sanitizer aborts the child).
